@@ -14,6 +14,7 @@ import (
 	"sync"
 
 	metav1 "k8s.io/apimachinery/pkg/apis/meta/v1"
+	"k8s.io/apimachinery/pkg/types"
 	"k8s.io/client-go/tools/cache"
 	"k8s.io/klog"
 
@@ -299,9 +300,15 @@ type HOp struct {
 	T     int32  `json:"t"`
 	B     int32  `json:"b"`
 	N     int    `json:"n"`
+	// setLimit: metadata of the delivered object as the control plane sets it (0 = none): generations count up with
+	// every spec change and restart at 1, under a new uid, when the cluster is deleted and created again under its name
+	Gen int64  `json:"gen,omitempty"`
+	UID string `json:"uid,omitempty"`
 }
 
 type History struct {
+	Gen0        int64  `json:"gen0,omitempty"` // metadata of the first object delivered (see HOp.Gen)
+	UID0        string `json:"uid0,omitempty"`
 	Kind        string `json:"kind"` // "history"
 	Total       int32  `json:"total"`
 	TotalBurst  int32  `json:"totalBurst"`
@@ -324,7 +331,7 @@ type HOut struct {
 	State *State  `json:"state,omitempty"`
 }
 
-func clusterObj(h History, t, b int32) *proxyv1alpha1.UpstreamCluster {
+func clusterObj(h History, t, b int32, meta ...interface{}) *proxyv1alpha1.UpstreamCluster {
 	schema := proxyv1alpha1.FlowControlSchema{Name: "s"}
 	schema.Strategy = proxyv1alpha1.GlobalAllocateLimit
 	if h.TokenBucket {
@@ -334,7 +341,11 @@ func clusterObj(h History, t, b int32) *proxyv1alpha1.UpstreamCluster {
 		schema.MaxRequestsInflight = &proxyv1alpha1.MaxRequestsInflightFlowControlSchema{Max: 1}
 		schema.GlobalMaxRequestsInflight = &proxyv1alpha1.MaxRequestsInflightFlowControlSchema{Max: t}
 	}
-	return &proxyv1alpha1.UpstreamCluster{ObjectMeta: metav1.ObjectMeta{Name: "up"},
+	om := metav1.ObjectMeta{Name: "up", Generation: h.Gen0, UID: types.UID(h.UID0)}
+	if len(meta) == 2 {
+		om.Generation, om.UID = meta[0].(int64), types.UID(meta[1].(string))
+	}
+	return &proxyv1alpha1.UpstreamCluster{ObjectMeta: om,
 		Spec: proxyv1alpha1.UpstreamClusterSpec{FlowControl: proxyv1alpha1.FlowControl{Schemas: []proxyv1alpha1.FlowControlSchema{schema}}}}
 }
 
@@ -418,8 +429,8 @@ func implHistory(h History) ([]HOut, string) {
 			case "delete":
 				l.Store.Delete("up", condName(op.I))
 			case "setLimit":
-				indexer.Update(clusterObj(h, op.T, op.B))
-				if err := l.HandleCluster(clusterObj(h, op.T, op.B)); err != nil {
+				indexer.Update(clusterObj(h, op.T, op.B, op.Gen, op.UID))
+				if err := l.HandleCluster(clusterObj(h, op.T, op.B, op.Gen, op.UID)); err != nil {
 					panic("HandleCluster: " + err.Error())
 				}
 			case "clients":
@@ -531,6 +542,11 @@ func genHistory(c *rig.Ctx) History {
 	last := map[int]int32{} // the instance's own view of its quota
 	nOps := 1 + r.Intn(40)
 	cur := t
+	gen, uid := int64(0), ""
+	if r.Intn(3) > 0 {
+		gen, uid = 1, "u"
+	}
+	h.Gen0, h.UID0 = gen, uid
 	for k := 0; k < nOps; k++ {
 		switch x := r.Intn(20); {
 		case x < 15:
@@ -565,7 +581,14 @@ func genHistory(c *rig.Ctx) History {
 			if h.TokenBucket {
 				b = burstFor(nt)
 			}
-			h.Ops = append(h.Ops, HOp{Op: "setLimit", T: nt, B: b})
+			if gen > 0 {
+				if r.Intn(4) == 0 {
+					gen, uid = 1, uid+"'" // deleted and created again under the same name
+				} else {
+					gen++
+				}
+			}
+			h.Ops = append(h.Ops, HOp{Op: "setLimit", T: nt, B: b, Gen: gen, UID: uid})
 		default:
 			h.Ops = append(h.Ops, HOp{Op: "clients", N: r.Intn(13)})
 		}
